@@ -455,7 +455,8 @@ PROPS["C06"] = {
         {"id": "lifecycle",
          "quick": ["c06::c06_object_paths", "c06::c06_group_paths", "c06::c06_clone_and_self_return",
                    "c06::c06_borrowing_objects_do_not_drop", "c06::c06_boxed_parent_borrowed_child", "c06::c06_cbox_paths",
-                   "c06::c06_cslicebox", "c06::c06_cslicebox_plain_data", "c06::c06_zero_sized_payload_with_destructor", "c06::c06_negative_twin"],
+                   "c06::c06_cslicebox", "c06::c06_cslicebox_plain_data", "c06::c06_large_payload",
+                   "c06::c06_lifetime_bound_mut_return_first_call", "c06::c06_zero_sized_payload_with_destructor", "c06::c06_negative_twin"],
          "cbmc_args": LEAK, "timeout": 1800},
     ],
     "negative": ["c06::c06_negative_twin"],
